@@ -42,12 +42,26 @@ new definition and every earlier one are observed (load outcome; per structure s
 __align__, __compiled__; len; three parses with value, stream position and dump; default construction and its dump) and compared with a new
 cstruct object of the same endianness / pointer type that performed only that one load with the same options.  Only the running number in
 the names of anonymous structures is normalised.
+
+Held callables (harness/v5_c14.py): 2-3 cstruct objects of different endianness define the same type names (typedef, enum / flag, nested and
+main structure, union, dynamic structure; identical text or per-object variants of other widths; compiled / interpreted, aligned or not).  Bound
+callables are taken and KEPT - `f = a.dumps`, `w = a.write`, `g = T.dumps`, `h = T.write`, `r = T.read`, `s = T.reads`, getattr(a, "dumps"),
+functools.partial(...) of them, lazy `map(T.dumps, values)` / `map(T.reads, inputs)` / `map(a.write, streams)`, lists of callbacks over
+instances of several cstruct objects; a ranges over parsed / default / keyword-constructed structures, scalar / array / char / wchar / enum /
+LEB128 instances and members of instances bound to their own name, T over scalars, arrays, structures, unions, arrays of structures.  Between
+taking and calling, any other object of the session is used: attribute access of .dumps / .write without a call, immediate dumps / write /
+bytes / len / repr / == / parses / default constructions, failing calls, member assignments and in-place changes (also of the instance whose
+callable is held), `cs.endian = ...` on another or the own object, load(), add_type(), other held callables.  Each held callable is called 1-3
+times; its result (value by member name, bytes, count and bytes written, exception class) must equal (1) the immediate form on the same object
+with the same arguments evaluated right afterwards and (2) the immediate form in a new universe that executed only the definitional and
+instance-constructing / assigning lines of the cstruct objects concerned.  Every line of a session is recorded Python source, the replay
+script is the session.
 """
 from __future__ import annotations
 
 import io
 
-from .. import defs, impl, s6_c14, t4_c14, u3_c14, v4_c14
+from .. import defs, impl, s6_c14, t4_c14, u3_c14, v4_c14, v5_c14
 from ..common import Case, Result, mkrng
 from ..structprops import rand_bytes
 
@@ -78,6 +92,12 @@ def run(env) -> Result:
                 "definition and its own align / compiled options (flipped between loads, both orders, explicit or default keywords, legacy parser "
                 "in between); layout (size, alignment, field offsets, flags), len, parses (value, stream position, dump) and default construction "
                 "of the new and of every earlier definition compared with a new object that performed only that load with the same options. "
+                "Held callables (v5_c14): bound a.dumps / a.write / T.dumps / T.write / T.read / T.reads (plain, getattr, functools.partial, lazy "
+                "map(), lists of callbacks) over 2-3 cstruct objects of different endianness with same-named types are kept while other instances, "
+                "types and cstruct objects are accessed (.dumps / .write without a call), dumped, written, parsed, made to fail, assigned to, "
+                "re-configured (endian, load, add_type); each later call of a held callable must equal the immediate form on the object it was "
+                "taken from at that moment (current member values) and the immediate form in a new universe that performed only the definitional "
+                "and assigning steps. "
                 "distinct = (history prefix); non-trivial = history of >= 3 operations")
     dc = impl.dc()
     rnd = mkrng(env["seed"], "c14")
@@ -221,6 +241,8 @@ def run(env) -> Result:
     u3_c14.run(env, res, viol, mkrng(env["seed"], "c14:u3"), 60 if tier == "quick" else 1000)
     # what load(D, align=a, compiled=c) creates does not depend on the options of the earlier loads of the same object
     v4_c14.run(env, res, viol, mkrng(env["seed"], "c14:v4"), 100 if tier == "quick" else 1500)
+    # bound dumps / write / read / reads callables kept across operations on other instances, types and cstruct objects
+    v5_c14.run(env, res, viol, mkrng(env["seed"], "c14:v5"), 60 if tier == "quick" else 1500)
     res.sample({"history_example": "construct@cs0, inplace-array@cs0/inst0, construct@cs0, endian@cs1, parse@cs1, ..."})
     return res
 
@@ -233,5 +255,8 @@ def replay(body) -> int:
     if str(case.get("family", "")).startswith("v4:"):
         print("replay:", body.get("what"))
         return v4_c14.replay(case)
+    if str(case.get("family", "")).startswith("v5:"):
+        print("replay:", body.get("what"))
+        return v5_c14.replay(case)
     print("replay:", body.get("what"), body.get("case"))
     return 0
